@@ -12,10 +12,10 @@ class OutOfModel(Exception):
 
 _TEMPLATES = [
     ('pre', re.compile(r'^\^(.*)\.\*$', re.S)),
-    ('dash', re.compile(r'^\^(.*)\(\?:-\.\*\)\?\$$', re.S)),
-    ('eq', re.compile(r'^\^(.*)\$$', re.S)),
+    ('dash', re.compile(r'^\^(.*)\(\?:-\.\*\)\?(?:\$|\\Z)$', re.S)),          # end-of-value anchor: '\Z' since F01d, '$' before
+    ('eq', re.compile(r'^\^(.*?)(?:\$|\\Z)$', re.S)),
     ('inc', re.compile(r'^\.\*\?\(\?:\(\?<=\^\)\|\(\?<=\[ \\t\\r\\n\\f\]\)\)(.*)\(\?=\(\?:\[ \\t\\r\\n\\f\]\|\$\)\)\.\*$', re.S)),
-    ('suf', re.compile(r'^\.\*\?(.*)\$$', re.S)),
+    ('suf', re.compile(r'^\.\*\?(.*?)(?:\$|\\Z)$', re.S)),
     ('sub', re.compile(r'^\.\*\?(.*)\.\*$', re.S)),
 ]
 NEVER = r'[^\s\S]'
